@@ -134,6 +134,15 @@ class Gen:
             sc["ints"][n] = "uint"
             sc["ro"].add(n)
             return out
+        if k < 0.2:
+            n, a, i, t, ln = self.fresh("n"), self.fresh("al"), self.fresh("i"), r.choice(ALL), r.randrange(1, 7)
+            out = [s_decl(n, T("uint"), i_e(lit("uint", ln))), s_alloca(a, T(t), var(n)),
+                   s_for(s_decl(i, T("int"), i_e(lit("int", 0))), bin_("<", var(i), lit("int", ln)), s_expr(incdec(var(i))),
+                         s_asg("=", idx(var(a), var(i)), bin_("+", cast(T("uint"), var(i)), self.atom(sc)))),
+                   s_obs(idx(var(a), lit("int", r.randrange(ln)))), s_obs(deref(bin_("+", var(a), lit("int", ln - 1))))]
+            sc["ints"][n] = "uint"
+            sc["ro"].add(n)
+            return out
         if k < 0.4:
             n, a, i, t, ln = self.fresh("n"), self.fresh("vla"), self.fresh("i"), r.choice(ALL), r.randrange(1, 7)
             mul = self.lit_for(r.choice(UINTS), small=True)
@@ -267,7 +276,8 @@ class Gen:
             if r.random() < 0.3:
                 sel = self.atom(sc)
             body = []
-            vals = r.sample([0, 1, 2, 3, 0x7fffffff, -1, 200, 65536], r.randrange(1, 4))
+            pool = [0, 1, 2, 3, 0x7fffffff, -1, 200, 65536, 50, 30, 70, 20, 40, 45, 5, 7, 9, 11, -2, 127, 128, 255, 256, 1000]
+            vals = r.sample(pool, r.randrange(1, 4) if r.random() < 0.7 else r.randrange(6, 14))
             for v in vals:
                 body.append(s_case(v))
                 body.append(s_block(self.stmts(self.scope(sc), r.randrange(0, 3), depth + 1, inloop)))   # (a block: no jump into the scope of a VLA)
@@ -340,6 +350,15 @@ class Gen:
                 fn = func(name, St(sid), [(a, St(sid)), (k, T("int"))], s_block(body))
                 fn["_sid"] = sid
                 self.funcs.append(fn)
+        self.fps = []
+        plain = [g_ for g_ in self.funcs if "_sid" not in g_]
+        if plain and r.random() < 0.7:
+            f0 = r.choice(plain)
+            sig = FP(f0["ret"], [q["t"] for q in f0["params"]])
+            same = [g_ for g_ in plain if g_["ret"] == f0["ret"] and [q["t"] for q in g_["params"]] == sig["ps"]]
+            fpn = self.fresh("fp")
+            self.globals.append(s_decl(fpn, sig, i_e(fnref(f0["name"], sig))))
+            self.fps.append((fpn, sig, same))
         self.vcalls = []
         if charsigned and r.random() < 0.6:
             # variadic function (x86_64-sysv only: the native executor uses the host va_list): named parameters of assorted
@@ -391,6 +410,12 @@ class Gen:
                      s_for(s_decl(self.fresh("i"), T("int"), i_e(lit("int", 0))), lit("int", 1), None,
                            s_block([s_obs(lit("int", 78)), s_if(lit("int", 1), s_goto(lc))])), s_label(lc)] + rest[cut2:])
             body = decls + [s_decl(cnt, T("uint"), i_e(lit("uint", r.randrange(1, 4))))] + rest
+        for fpn, sig, same in self.fps:
+            for _ in range(r.randrange(1, 3)):
+                lv = self.int_lvalue(sc)
+                if r.random() < 0.5:
+                    body.append(s_asg("=", var(fpn), fnref(r.choice(same)["name"], sig)))
+                body.append(s_call("", [self.expr(sc, 2) for _ in sig["ps"]], lv[0] if lv else None, fe=var(fpn)))
         for name, args in self.vcalls:
             u = self.fresh("u")
             body += [s_decl(u, T("ulong"), i_e(lit("ulong", 0))), s_call(name, args, var(u)), s_obs(var(u))]
